@@ -20,12 +20,86 @@ theorem FastInv.nonprocZero {op : Nat} {c0 : SState} {n : Nat} {s : St} {io : Io
   · exact hP.nonproc (by rw [← h1]; exact hne)
   · exact h2
 
+/-! ### the dispatch-relevant parameters are frozen -/
+
+theorem mdEnter_params (s : St) (n : Nat) : (mdEnter s n).params = s.params := by
+  unfold mdEnter
+  split <;> rfl
+
+theorem fastStorage_params (s : St) (ip : Bool) (n : Nat) : (fastStorage s ip n).params = s.params := by
+  unfold fastStorage growStorage
+  split
+  · rfl
+  · split <;> rfl
+
+/-- quality, catable and magic (what the dispatch and the quality class depend on) -/
+def St.mode (s : St) : Int × Bool × Bool := (s.params.quality, s.params.catable, s.params.magic)
+
+theorem mode_of_params {s s' : St} (h : s'.params = s.params) : s'.mode = s.mode := by
+  unfold St.mode; rw [h]
+
+theorem mode_updateSizeHint (s : St) (n : Nat) : (updateSizeHint s n).mode = s.mode := by
+  obtain ⟨_, u2, u3, u4, _⟩ := updateSizeHint_fields s n
+  unfold St.mode; rw [u2, u3, u4]
+
+theorem fastMode_of_mode {s s' : St} (h : s'.mode = s.mode) : fastMode s'.params ↔ fastMode s.params := by
+  unfold St.mode at h
+  simp only [Prod.mk.injEq] at h
+  unfold fastMode
+  rw [h.1, h.2.1, h.2.2]
+
+set_option maxRecDepth 4000 in
+/-- no atomic step after initialisation changes quality, catable or magic -/
+theorem step_mode {o : Oracle} {op : Nat} {s s' : St} {io io' : Io} {e : Ev}
+    (h : Step o op (s, io) e (s', io')) (hi : s.isInitialized = true) : s'.mode = s.mode := by
+  cases h with
+  | init hf => rw [isFreshInit hf] at hi; cases hi
+  | copy hI hw hop hnf hst hrm hc hn h =>
+    obtain ⟨c1, _⟩ := copy_fields hI.init h
+    exact mode_of_params c1
+  | pad hI hc hz h =>
+    obtain ⟨f, _⟩ := pad_frame h
+    rw [St.frame_eq_iff] at f
+    exact mode_of_params f.1
+  | push hI hc h =>
+    obtain ⟨f, _⟩ := push_frame h
+    rw [St.frame_eq_iff] at f
+    exact mode_of_params f.1
+  | encSlow hI hop hnf hrm hnc hnp hpend hst hgo h =>
+    obtain ⟨f, _⟩ := encodeData_frame h
+    rw [St.frame_eq_iff] at f
+    obtain ⟨k1, _⟩ := markAfterEncode_fields _ (slowIl op io) (slowFf op io)
+    exact (mode_of_params (k1.trans f.1)).trans (mode_updateSizeHint s io.availIn)
+  | cfc hI hop hrm hnp hfl =>
+    obtain ⟨c1, _⟩ := checkFlushComplete_frame s
+    exact mode_of_params c1
+  | fastFlush hI hfm hrm hnp hpend hst hop1 hz => rfl
+  | fastBlock hI hfm hop hrm hnp hpend hst hgo hnf hcap hin hfit =>
+    have e1 := (fastEncode_fields (fastS1 s io) io (o s.nEnc (fastReq op s io)) (fastReq op s io) (fastBs s io) (fastInplace s io)
+        (fastReq op s io).isLast (fastReq op s io).forceFlush).1
+    show (fastRes o op s io).1.mode = s.mode
+    apply mode_of_params
+    unfold fastRes
+    rw [e1]
+    unfold fastS1
+    rw [fastStorage_params]
+  | mdEnter hI hop hentry =>
+    exact (mode_of_params (mdEnter_params _ _)).trans (mode_updateSizeHint s 0)
+  | mdEnc hM hop hpend hne h =>
+    obtain ⟨f, _⟩ := encodeData_frame h
+    rw [St.frame_eq_iff] at f
+    exact mode_of_params f.1
+  | mdHead hM hop hpend hlf hst hok => rfl
+  | mdDone hM hop hpend hlf hst hz => rfl
+  | mdOut hM hop hpend hlf hst hnz hao hle => rfl
+  | mdTiny hM hop hpend hlf hst hnz hao hle => rfl
+
 /-! ### the main loop -/
 
 theorem slowStep_steps {o : Oracle} {op : Nat} {c0 : SState} {n total : Nat} {s s' : St} {io io' : Io} {c : Ctl}
-    (hop : op ≤ 2) (hP : SlowInv op c0 n total s io) (h : slowStep o op s io = .ok (s', io', c)) :
+    (hop : op ≤ 2) (hnf : ¬ fastMode s.params) (hP : SlowInv op c0 n total s io) (h : slowStep o op s io = .ok (s', io', c)) :
     (c = .cont ∧ ∃ e, Step o op (s, io) e (s', io')) ∨
-    (c = .brk ∧ s' = s ∧ io' = io ∧ Step o op (s, io) .tau (checkFlushComplete s, io)) := by
+    (c = .brk ∧ s' = s ∧ io' = io ∧ Step o op (s, io) (.tau 0) (checkFlushComplete s, io)) := by
   have hI := hP.inv
   have hw : s.inputPos + io.availIn < two64 := by rw [hP.sum]; exact hP.nowrap
   have hnz := hP.nonprocZero
@@ -44,7 +118,7 @@ theorem slowStep_steps {o : Oracle} {op : Nat} {c0 : SState} {n total : Nat} {s 
           by_cases hh : s.streamState = .processing
           · exact hh
           · exact absurd (hnz hh) hc.2
-        exact Or.inl ⟨rfl, _, Step.copy hI hw hst hP.rm hc (by simpa [copyN] using hn) hcp⟩
+        exact Or.inl ⟨rfl, _, Step.copy hI hw hop hnf hst hP.rm hc (by simpa [copyN] using hn) hcp⟩
       · simp at h
       · simp at h
   · rename_i hc
@@ -83,19 +157,19 @@ theorem slowStep_steps {o : Oracle} {op : Nat} {c0 : SState} {n total : Nat} {s 
           subst hres
           simp only [Bool.not_true, Bool.false_eq_true, ↓reduceIte, Out.ok.injEq, Prod.mk.injEq] at h
           obtain ⟨rfl, rfl, rfl⟩ := h
-          exact Or.inl ⟨rfl, _, Step.encSlow hI hop hP.rm hc p1 (List.eq_nil_of_length_eq_zero hcond.1) hcond.2.1 hcond.2.2 henc⟩
+          exact Or.inl ⟨rfl, _, Step.encSlow hI hop hnf hP.rm hc p1 (List.eq_nil_of_length_eq_zero hcond.1) hcond.2.1 hcond.2.2 henc⟩
       · simp only [Out.ok.injEq, Prod.mk.injEq] at h
         obtain ⟨rfl, rfl, rfl⟩ := h
         exact Or.inr ⟨rfl, rfl, rfl, Step.cfc hI hop hP.rm p1 hnz⟩
 
 theorem slowLoop_steps {o : Oracle} {op : Nat} {c0 : SState} {n total : Nat} (hop : op ≤ 2) :
-    ∀ fuel s io s' io' r, SlowInv op c0 n total s io → slowLoop o op fuel s io = .ok (s', io', r) →
+    ∀ fuel s io s' io' r, ¬ fastMode s.params → SlowInv op c0 n total s io → slowLoop o op fuel s io = .ok (s', io', r) →
       ∃ evs, Steps o op (s, io) evs (s', io') := by
   intro fuel
   induction fuel with
-  | zero => intro s io s' io' r _ h; simp [slowLoop] at h
+  | zero => intro s io s' io' r _ _ h; simp [slowLoop] at h
   | succ k ih =>
-    intro s io s' io' r hP h
+    intro s io s' io' r hnf hP h
     unfold slowLoop at h
     split at h
     · simp at h
@@ -103,16 +177,17 @@ theorem slowLoop_steps {o : Oracle} {op : Nat} {c0 : SState} {n total : Nat} (ho
     · rename_i s1 io1 hs
       exact absurd rfl (slowInv_step hP hs).1
     · rename_i s1 io1 hs
-      rcases slowStep_steps hop hP hs with ⟨_, e, he⟩ | ⟨hc, _⟩
-      · obtain ⟨evs, hevs⟩ := ih _ _ _ _ _ (slowInv_step hP hs).2 h
+      rcases slowStep_steps hop hnf hP hs with ⟨_, e, he⟩ | ⟨hc, _⟩
+      · have hnf1 : ¬ fastMode s1.params := fun hh => hnf ((fastMode_of_mode (step_mode he hP.inv.init)).mp hh)
+        obtain ⟨evs, hevs⟩ := ih _ _ _ _ _ hnf1 (slowInv_step hP hs).2 h
         exact ⟨e :: evs, .cons he hevs⟩
       · cases hc
     · rename_i s1 io1 hs
       simp only [Out.ok.injEq, Prod.mk.injEq] at h
       obtain ⟨rfl, rfl, rfl⟩ := h
-      rcases slowStep_steps hop hP hs with ⟨hc, _⟩ | ⟨_, rfl, rfl, he⟩
+      rcases slowStep_steps hop hnf hP hs with ⟨hc, _⟩ | ⟨_, rfl, rfl, he⟩
       · cases hc
-      · exact ⟨[.tau], .one he⟩
+      · exact ⟨[.tau 0], .one he⟩
 
 /-! ### the quality 0/1 loop -/
 
